@@ -1,5 +1,9 @@
 """C11 -- cross-based aggregation averages costs over the combined support region.
 
+T-gen : translator/gen_cbca_kernels.py rewrites coq/Gen/CbcaKernels.v from the `ast` of the five numba kernels
+        (cbca_step_1..4, cross_support) as trees of the IR of Lib/KernelIR.v; Props/C11.v re-proves at every run
+        that they are the canonical trees (C11_gen_*_canonical) for which Proofs/CbcaIRP.v proves, for all inputs,
+        evaluation = Model/Cbca.v (C11_gen_*_eq) and the headline on the generated kernels (C11_gen_model_eq_spec).
 T-corr: the extracted model (Model/Cbca.v: mask -> NaN, 3x3 median, shifted right masks, crop,
         cross_support loops, cbca_step_1..4 with their sentinel reads, anchor, NaN re-injection,
         normalisation, plane loop) against the REAL code driven as the state machine drives it:
@@ -17,7 +21,7 @@ import numpy as np
 from harness import core
 from harness import pandora_util as pu
 
-GEN = []
+GEN = ["gen_cbca_kernels"]
 EXTRACT_FILES = ["X11"]
 DRIVERS = ["x11"]
 RULE = ("one case = one image pair (5..12 x 6..14, integer radiometry, flat / piecewise-constant / ramp / noisy "
@@ -40,8 +44,28 @@ ASSUMES = [
     "float32 accumulation: on the generated domain every running sum is an exact float32 (checked bound), the final "
     "quotient is compared with the bridging tolerance (rule b)",
 ]
-TRUSTED = ["numba's compilation of the kernels (negative-index wrap-around, value of a loop variable after a loop)",
+TRUSTED = ["numba's compilation of the kernels: it implements the Python / numpy semantics written once in "
+           "Lib/KernelIR.v (negative-index wrap-around, range, break, value of a loop variable after a loop, slices, "
+           "IEEE inf / NaN); int16 / int64 / float32 / float64 widths are recorded in the trees but integers and "
+           "rationals are exact in the evaluator (arms < 32768, exact float sums: checked domain of the correspondence)",
+           "translator/gen_cbca_kernels.py (one ast construct -> one IR constructor; numbering of the variables)",
            "scipy.ndimage.zoom (shifted right images) and np.nanmedian"]
+GEN_OBLIGATIONS = [
+    "C11_gen_cross_support_canonical: Gen.CbcaKernels.cross_support = Model.CbcaIR.cross_support (eq_refl on the tree "
+    "regenerated from cbca.py cross_support: loop headers, break condition, increments, minimum-arm expression, "
+    "initial value of the four loop variables, dtypes, numba signature)",
+    "C11_gen_step1_canonical: Gen.CbcaKernels.cbca_step_1 = Model.CbcaIR.cbca_step_1 (eq_refl)",
+    "C11_gen_step2_canonical: Gen.CbcaKernels.cbca_step_2 = Model.CbcaIR.cbca_step_2 (eq_refl)",
+    "C11_gen_step3_canonical: Gen.CbcaKernels.cbca_step_3 = Model.CbcaIR.cbca_step_3 (eq_refl)",
+    "C11_gen_step4_canonical: Gen.CbcaKernels.cbca_step_4 = Model.CbcaIR.cbca_step_4 (eq_refl)",
+    "C11_gen_cross_support_eq / C11_gen_step1_eq .. C11_gen_step4_eq: forall inputs, run_kernel (generated tree) "
+    "succeeds (no access outside an array) and returns Model.cross_support / step1 / step2, sum2 / step3 / step4, sum4 "
+    "(Proofs/CbcaIRP.v gen_* instantiated with the generated trees)",
+    "C11_gen_model_eq_spec: generated cross_support on both images, the four generated kernels chained as the plane "
+    "loop chains them, anchor + NaN re-injection + division = agg_spec, for every image pair, plane and pixel",
+    "C11_gen_example_runs: vm_compute of the evaluator on the generated cross_support (distance-1 witness) and "
+    "cbca_step_1 (NaN cost, sentinel read)",
+]
 
 
 # ---------------------------------------------------------------- oracle written from the property text
@@ -417,6 +441,7 @@ CORPUS = [
 
 def run(ctx):
     rng = ctx.rng
+    ctx.gen_obligations = list(GEN_OBLIGATIONS)
     quick = ctx.tier == "quick"
     model = core.Model("x11")
     if getattr(ctx, "replay_case", None) is not None:
